@@ -1,5 +1,55 @@
-import RSVerif.Basic
-/- C01: line-protocol driver (stub) -/
+import RSVerif.Model.RdbRead
+/- line protocol for C01: `rdb|rdbchan <L> <wf|mut|hdr> <hex>` → records delivered, end state, bytes left unread -/
 namespace RSVerif.Drive.C01
-def handle (_line : String) : String := "unimplemented"
+open RSVerif RSVerif.Rdb
+
+def lower (b : UInt8) : UInt8 := if 65 ≤ b.toNat ∧ b.toNat ≤ 90 then b + 32 else b
+
+def isDigit (b : UInt8) : Bool := 48 ≤ b.toNat && b.toNat ≤ 57
+
+/-- Stand-in for `strconv.ParseFloat` succeeding, for the decimal grammar the generator emits:
+    [+-]? ( inf | infinity | nan | digits [. digits] | . digits ) ( [eE] [+-]? digits )? -/
+def pfSimple (t : Bytes) : Bool :=
+  let t := match t with | 43 :: r => r | 45 :: r => r | r => r
+  let l := t.map lower
+  if l == "inf".toUTF8.toList || l == "infinity".toUTF8.toList || l == "nan".toUTF8.toList then true
+  else
+    let ip := l.takeWhile isDigit
+    let r := l.dropWhile isDigit
+    let (fp, r, dot) := match r with
+      | 46 :: r' => (r'.takeWhile isDigit, r'.dropWhile isDigit, true)
+      | _ => ([], r, false)
+    let _ := dot
+    if ip.isEmpty && fp.isEmpty then false
+    else match r with
+      | [] => true
+      | 101 :: e =>
+        let e := match e with | 43 :: x => x | 45 :: x => x | x => x
+        !e.isEmpty && e.all isDigit && e.length ≤ 2
+      | _ => false
+
+def hex16 (x : UInt64) : String := toHex (le64 x).reverse
+
+def valRepr (v : Bytes) : String :=
+  if v.length ≤ 40 then hexOrDash v else s!"{v.length}:{hex16 (Spec.Crc64.crc64 v)}"
+
+def showEntry (e : Entry) : String :=
+  s!" E[{e.db},{hexOrDash e.key},{e.type.toNat},{e.expireAt},{e.idle},{e.freq},{e.needReadLen},{e.realMemberCount},{if e.valueUnspecified then "?" else valRepr e.value}]"
+
+def handle (line : String) : String :=
+  match line.splitOn " " with
+  | [_kind, l, _flag, h] =>
+    match l.toNat?, ofHex h with
+    | some L, some bs =>
+      match header Generated.rdbFromVersion bs with
+      | .error _ => "h=err"
+      | .ok _ =>
+        let (es, fin) := run pfSimple true L Generated.rdbFromVersion bs
+        let body := String.join (es.map showEntry)
+        match fin with
+        | .ok rest => s!"h=ok{body} end=ok:unread={rest.length}"
+        | .error _ => s!"h=ok{body} end=err"
+    | _, _ => "badcase"
+  | _ => "badcase"
+
 end RSVerif.Drive.C01
